@@ -101,6 +101,8 @@ def check_absorb(ctx, P):
         if it is not None and not it.viol:
             kinds = {e[0] for o in [] for e in o}
             ctx.check(it.nret >= 5, "floor", "FixedBuffer<%d>::input paths" % n, "5 feasible return paths (partial fill, fill, fill+direct, direct, tail only)", "only %d return paths analysed" % it.nret, key="floor:fixedbuffer-paths")
+    from . import b2shape
+    ctx.guard("shape-eval", "blake2 update_mut", lambda: b2shape.check_update(ctx, P))
     for mod, E, B in (("blake2b", "EngineB", 128), ("blake2s", "EngineS", 64)):
         for T in ("Context::<BITS>", "ContextDyn"):
             path = "hashing::%s::%s::update_mut" % (mod, T)
